@@ -43,7 +43,7 @@ Definition wrap_value (sqlite : bool) (al : option string) (v : pyval) : term :=
 (* how a raw value becomes a term *)
 Inductive wrapping :=
 | WConst       (* Term.wrap_constant(v): None -> NullValue(), otherwise ValueWrapper(v) *)
-| WConstCls    (* wrap_constant(v, wrapper_cls=self._wrapper_cls)   (QueryBuilder.select) *)
+| WConstCls    (* wrap_constant(v, wrapper_cls=self._wrapper_cls)   (QueryBuilder.select, INSERT rows since e7a5678) *)
 | WCls         (* self._wrapper_cls(v)                              (QueryBuilder.set) *)
 | WPlain.      (* ValueWrapper(v)   (on_duplicate_key_update, do_update, Column.default, explicit ValueWrapper) *)
 
@@ -105,7 +105,7 @@ Definition plug (p : pos) (v : term) : term :=
 
 Definition pos_wrap (p : pos) : wrapping :=
   match p with
-  | PSelectVal => WConstCls
+  | PSelectVal | PInsert => WConstCls
   | PSet => WCls
   | PSelectAlias | POnDup | POnConflict | PDefault => WPlain
   | _ => WConst
@@ -115,17 +115,17 @@ Definition pos_alias (p : pos) : option string := match p with PSelectAlias => S
 Definition with_flags (c : ctx) (wa' wn' subq' : bool) : ctx :=
   {| q := q c; sq := sq c; aq := aq c; askw := askw c; dia := dia c; wa := wa'; wn := wn'; subq := subq'; subc := false |}.
 
-(* the keyword arguments that reach the expression (queries.py: _select_sql / _values_sql pass with_alias=True,
-   subquery=True; _where_sql and JoinOn.get_sql pass subquery=True; _having_sql, _set_sql, MySQL's
+(* the keyword arguments that reach the expression (queries.py: _select_sql passes with_alias=True, subquery=True;
+   _values_sql with_alias=False, subquery=True; _where_sql and JoinOn.get_sql pass subquery=True; _having_sql, _set_sql, MySQL's
    _on_duplicate_key_update_sql pass kwargs unchanged; PostgreSQL's _on_conflict_action_sql adds
    with_namespace=True; a join switches with_namespace on; Column.get_sql gets the CREATE builder's kwargs;
    _with_sql renders each CTE body through its own QueryBuilder.get_sql, i.e. an ordinary WHERE) *)
 Definition pos_ctx (p : pos) (k : qclass) : ctx :=
   let c := class_ctx k in
   match p with
-  | PWhereEq | PWhereIn | PWhereBetween | PWhereLike | PWhereFunc | PTupleEq | PSubWhere | PFromSub | PWithOne | PWithTwo =>
+  | PWhereEq | PWhereIn | PWhereBetween | PWhereLike | PWhereFunc | PTupleEq | PSubWhere | PFromSub | PWithOne | PWithTwo | PInsert =>
       with_flags c false false true
-  | PSelectFunc | PSelectCase | PSelectVal | PSelectAlias | PArrayElem | PArith | PArithSub | PInsert | PCaseWhen | PCaseElse =>
+  | PSelectFunc | PSelectCase | PSelectVal | PSelectAlias | PArrayElem | PArith | PArithSub | PCaseWhen | PCaseElse =>
       with_flags c true false true
   | PSet | POnDup | PHaving => with_flags c false false false
   | POnConflict => with_flags c false true false
